@@ -504,6 +504,7 @@ class Ctx:
             f = r != 'unsat'
         if t and f:
             self.alts.append(self.decisions + [0])
+            self.trace_choices.append(('fork@' + self.cur_pos, 1))
             d = 1
         elif t:
             d = 1
@@ -1026,6 +1027,8 @@ class Interp:
             return z3.Length(v)
         if isinstance(v, Slice):
             return v.len
+        if isinstance(v, SymBytes):
+            return z3.Length(v.s)
         if v is None:
             return 0
         if isinstance(v, MapRef):
@@ -1040,6 +1043,8 @@ class Interp:
         """Elements of a slice as a python list."""
         ctx = self.ctx
         s = ctx.force(s)
+        if isinstance(s, SymBytes):
+            return self.string_bytes(s.s)
         if s is None or s.base is None or s.len == 0:
             return []
         arr = ctx.load(s.base)
@@ -1316,6 +1321,8 @@ def convert(I, x, ft, tt):
     if fk == 'string' and tk == 'slice':
         et = p.elem(tt)
         if p.kind(et) == 'int' and p.intinfo(et)[0] == 8:
+            if is_sym(x):
+                return SymBytes(x)     # materialised byte by byte only if the code indexes into it
             bs = I.string_bytes(x)
             return Slice(I.ctx.alloc(tuple(bs), 'bytes'), 0, len(bs), len(bs))
         if isinstance(x, str):   # []rune
@@ -1323,6 +1330,8 @@ def convert(I, x, ft, tt):
             return Slice(I.ctx.alloc(tuple(rs), 'runes'), 0, len(rs), len(rs))
         raise Inconclusive('string->[]rune symbolic')
     if fk == 'slice' and tk == 'string':
+        if isinstance(x, SymBytes):
+            return x.s
         el = I.slice_elems(x)
         et = p.elem(ft)
         if p.intinfo(et)[0] == 8:
